@@ -45,6 +45,34 @@ def eps_variants(hist: History) -> List[Tuple[History, str]]:
     return out
 
 
+def eps_all_variants(hist: History) -> List[Tuple[History, str]]:
+    """The same epsilon added to EVERY outgoing amount: debits that are each within the tolerance but accumulate beyond it."""
+    out = []
+    n_out = sum(1 for it in hist if it[0][0] in ("S", "M"))
+    if n_out < 2:
+        return out
+    for e in EPS[:2] + ("3/100000000000",):
+        items = []
+        for item in hist:
+            sym = item[0]
+            if sym[0] in ("S", "M"):
+                sym = (sym[0], sym[1], str(Fraction(sym[2]) + Fraction(e)), sym[3], sym[4], sym[5])
+            items.append((sym,) + tuple(item[1:]))
+        out.append((tuple(items), f"eps-all:{e}"))
+    return out
+
+
+def dust_tail_variants(hist: History) -> List[Tuple[History, str]]:
+    """k = 1..4 further disposals of 4e-11 each, one day apart, from each account: every single one is within the tolerance,
+    three of them from an empty account are not."""
+    out = []
+    for acct in (0, 1, 2):
+        for k in (1, 2, 3, 4):
+            tail = tuple((H.S("4/100000000000", acct=acct), "d") for _ in range(k))
+            out.append((tuple(hist) + tail, f"dust-tail:{k}x4e-11@{acct}"))
+    return out
+
+
 def judge_one(st: Stats, hist: History, specs: List[Dict[str, Any]], sch: Sequence[Tuple[int, str]], label: str) -> None:
     from rp2verif.seams import compute as C
 
@@ -107,6 +135,19 @@ def judge_one(st: Stats, hist: History, specs: List[Dict[str, Any]], sch: Sequen
         else:
             st.inc("either_zone")
             st.inc("distinct_nontrivial")
+        # a from-date only hides rows: the overdraft verdict of the whole history must not depend on it
+        if not label and verdict in ("must_reject", "must_accept") and len(hist) >= 2:
+            from rp2verif.models.lots import parse_ts
+
+            last = max(parse_ts(s2["timestamp"]).date() for s2 in specs)
+            from datetime import timedelta
+
+            for fd in (last, last + timedelta(days=1)):
+                st.inc("from_date_runs")
+                f_out = C.run_window(specs, sch, from_date=fd, allow_negative_balances=False)
+                if f_out.ok != out.ok:
+                    st.violation(dict(base, from_date=str(fd), signature="C08 verdict depends on the from-date",
+                                      what=f"{tag} -f {fd} :: {'accepted' if f_out.ok else 'rejected'} with the from-date, {'accepted' if out.ok else 'rejected'} without"))
 
 
 def worker(task: Tuple[Any, ...]) -> Stats:
@@ -114,7 +155,7 @@ def worker(task: Tuple[Any, ...]) -> Stats:
     tree = Tree(FIRST, SYMBOLS, steps, EXTRA)
     st = Stats()
     for hist in tree.level(root, depth):
-        variants: List[Tuple[History, str]] = [(hist, "")] if not dev else eps_variants(hist)
+        variants: List[Tuple[History, str]] = [(hist, "")] if not dev else (eps_all_variants(hist) if dev == "all" else dust_tail_variants(hist) if dev == "dust" else eps_variants(hist))
         for h2, label in variants:
             specs = H.materialize(h2, row_order=row_order)
             if specs is None:
@@ -197,12 +238,16 @@ def plan(tier: str) -> List[Dict[str, Any]]:
         return [
             {"name": "3 accounts, steps = / +1h / +1d", "schedules": fifo, "steps": STEPS, "depth": 3, "dev": 0, "group": 1},
             {"name": "amount + epsilon", "schedules": fifo, "steps": ("=", "d"), "depth": 3, "dev": 1, "group": 1, "from_depth": 2},
+            {"name": "the same epsilon on every outgoing amount (accumulating dust)", "schedules": fifo, "steps": ("=", "d"), "depth": 3, "dev": "all", "group": 1, "from_depth": 3},
+            {"name": "1..4 dust disposals of 4e-11 appended to every history of depth <= 2", "schedules": fifo, "steps": ("=", "d"), "depth": 2, "dev": "dust", "group": 1},
         ]
     return [
         {"name": "3 accounts, steps = / +1h / +1d", "schedules": fifo + [((1970, "hifo"),)], "steps": STEPS, "depth": 3, "dev": 0, "group": 1},
         {"name": "3 accounts, depth 4", "schedules": fifo, "steps": ("=", "h"), "depth": 4, "dev": 0, "group": 1, "from_depth": 4},
         {"name": "amount + epsilon", "schedules": fifo, "steps": ("=", "d"), "depth": 3, "dev": 1, "group": 1, "from_depth": 2},
         {"name": "sheet order reversed", "schedules": fifo, "steps": STEPS, "depth": 3, "dev": 0, "group": 1, "row_order": "reverse"},
+        {"name": "the same epsilon on every outgoing amount (accumulating dust)", "schedules": fifo, "steps": ("=", "d"), "depth": 4, "dev": "all", "group": 1, "from_depth": 3},
+        {"name": "1..4 dust disposals of 4e-11 appended to every history of depth <= 3", "schedules": fifo, "steps": ("=", "d"), "depth": 3, "dev": "dust", "group": 1},
     ]
 
 
